@@ -18,7 +18,7 @@ FUNCTIONS = ["Node.to_dict", "Tree.to_dict_list", "Node.from_dict", "Tree.from_d
 STUBS = ["S-dict", "S-hash", "S-fmt", "S-json (json_normalise stands for json.dumps/loads in symbolic runs; the native pass uses the real json module)"]
 ASSUMPTIONS = [
     "string trees: names from the pool %r; object trees: objects keyed by a small symbolic int, serialised by a pair of inverse mappers" % (["a", "b", "c"],),
-    "explicit data_ids (when used) are symbolic ints in 1..3 or absent",
+    "explicit data_ids (when used): absent, 101, 102 or the falsy id 0; the serialize mapper either updates the dict in place or returns a new dict",
     "JSON round-trips str/int/list/dict[str] structures unchanged (validated natively with the real json module)",
 ]
 TIMEOUTS = {"quick": (600, 60), "thorough": (3000, 120)}
@@ -56,7 +56,9 @@ def params(desc):
     n = len(desc["shape"])
     ps = [("l%d" % i, "sel", 0, 2) for i in range(n)]
     if desc["fl"] == "ids":
-        ps += [("d%d" % i, "sel", 0, 3) for i in range(n)]  # 0 = none
+        ps += [("d%d" % i, "sel", 0, 3) for i in range(n)]  # 0 = none, 3 = the falsy id 0
+    if desc["fl"] == "obj":
+        ps.append(("fresh", "bool", None, None))  # mapper returns a new dict instead of updating in place
     if n == 0:
         ps.append(("cleared", "bool", None, None))
     return ps
@@ -65,6 +67,12 @@ def params(desc):
 def ser_mapper(node, data):
     data["key"] = node.data.key
     return data
+
+
+def ser_mapper_fresh(node, data):
+    out = dict(data)
+    out["key"] = node.data.key
+    return out
 
 
 def de_mapper(parent, item):
@@ -88,12 +96,12 @@ def body(ctx, desc, x):
     if fl == "obj":
         labels = [Obj(k + 1) for k in sel]
         calc = lambda tree, d: d.key if isinstance(d, Obj) else hash(d)  # noqa: E731
-        mapper, demapper = ser_mapper, de_mapper
+        mapper, demapper = (ser_mapper_fresh if x.get("fresh") else ser_mapper), de_mapper
     else:
         labels = [POOL[k] for k in sel]
         mapper = demapper = None
     if fl == "ids":
-        ids = [None if x["d%d" % i] == 0 else 100 + x["d%d" % i] for i in range(n)]
+        ids = [None if x["d%d" % i] == 0 else (0 if x["d%d" % i] == 3 else 100 + x["d%d" % i]) for i in range(n)]
     try:
         tree, nodes = build(shape, labels, ids=ids, calc=calc, cleared=bool(x.get("cleared", False)))
     except Exception:  # noqa: BLE001
